@@ -200,6 +200,21 @@ fn c12_request_inner(r: &mut Rng, seq: u8, unsol_enabled_in_config: bool, max_le
         class,
         expect,
     };
+    if r.chance(1, 30) {
+        // (9) WRITE of a device attribute that must be refused: the wrong data type for a writable attribute (set 7
+        // variation 1 is a visible string), an attribute that is defined read-only (set 7 variation 2), one that is not
+        // defined at all. [group 0, variation, qualifier 00, set, set, type code, length, value]
+        let (var, code, val, why): (u8, u8, Vec<u8>, &str) = match r.below(4) {
+            0 => (1, 2, vec![42], "uint-for-vstr"),
+            1 => (1, 4, 1.5f32.to_le_bytes().to_vec(), "float-for-vstr"),
+            2 => (2, 1, b"new".to_vec(), "read-only"),
+            _ => (9, 1, b"new".to_vec(), "undefined"),
+        };
+        let mut data = vec![code, val.len() as u8];
+        data.extend(val);
+        let b = B::request(F_WRITE, seq).range8(0, var, 7, 7, &data);
+        return mk(b.done(), F_WRITE, format!("attr-write-refused/{why}"), Expect::Error);
+    }
     if class < 22 {
         // (1) well-formed, acceptable
         let func = r.pick_copy(&RESPONDING);
